@@ -3,7 +3,7 @@
 // patterns with GRAPH <iri> / GRAPH ?g blocks (WHERE evaluated once on the pre-operation dataset by brute-force
 // join, template quads with an unbound variable skipped, all deletions before all insertions, counts = quads
 // that actually changed, graph identities created by inserts and never removed by deletes) is run side by side
-// with execute_sparql_update over every sequence of <= 3 (thorough: 4) operations out of 29, from 2 initial
+// with execute_sparql_update over every sequence of <= 3 (thorough: 4) operations out of 32, from 2 initial
 // datasets; after every step the whole dataset (all graphs), the graph catalog and the reported counts are compared.
 use kolibrie::execute_query::execute_sparql_update;
 use kolibrie::sparql_database::SparqlDatabase;
@@ -66,6 +66,10 @@ fn ops() -> Vec<Op> {
         /*26*/ m(Form::DeleteWhere, vec![], vec![], vec![pat(G::Default, V("s"), p(), V("s"))]),
         /*27*/ m(Form::DeleteWhere, vec![], vec![], vec![pat(G::Default, V("s"), p(), V("o")), pat(G::Default, V("o"), p(), V("z"))]),
         /*28*/ m(Form::DeleteWhere, vec![], vec![], vec![pat(G::Var("g"), V("s"), p(), V("s")), pat(G::Default, V("s"), p(), V("o"))]),
+        // ground DELETE WHERE: the block is a CONJUNCTION - nothing is deleted unless every listed quad is present
+        /*29*/ m(Form::DeleteWhere, vec![], vec![], vec![pat(G::Default, I("a"), p(), I("b")), pat(G::Default, I("a"), p(), I("zz"))]),
+        /*30*/ m(Form::DeleteWhere, vec![], vec![], vec![pat(G::Iri("g1"), I("a"), p(), I("b")), pat(G::Default, I("a"), p(), I("b"))]),
+        /*31*/ m(Form::DeleteWhere, vec![], vec![], vec![pat(G::Default, I("a"), p(), I("b")), pat(G::Iri("g2"), I("a"), p(), I("c"))]),
         /*19*/ u(vec![], vec![pat(G::Iri("g3"), V("s"), p(), V("o")), pat(G::Iri("g3"), V("s"), q(), V("z"))], vec![pat(G::Default, V("s"), p(), V("o"))], vec![pat(G::Iri("g1"), V("s"), p(), V("z"))]),
     ]
 }
